@@ -108,7 +108,7 @@ func (v VLA) analyzeVLAForMarshaling() (*vlaMarshalingContext, error) {
 		return nil, err
 	}
 
-	ctx.commonSLBM = commonSLBMValues(ctx.slMBs[:])
+	ctx.commonSLBM = commonSLBMValues(ctx.slMBs[:v.RTPStreamCount])
 
 	// RID, NS, sl_bm fields
 	if ctx.commonSLBM != 0 {
@@ -195,7 +195,8 @@ func commonSLBMValues(slMBs []uint8) uint8 {
 	var common uint8
 	for i := 0; i < len(slMBs); i++ {
 		if slMBs[i] == 0 {
-			continue
+			// a stream without active layers does not share a bitmask with the others
+			return 0
 		}
 		if common == 0 {
 			common = slMBs[i]
